@@ -3,6 +3,7 @@ package main
 import (
 	"bufio"
 	"encoding/json"
+	"errors"
 	"fmt"
 	"os"
 	"strconv"
@@ -43,6 +44,18 @@ type customEv struct{ N int }
 
 type syncEv struct{ N int }
 
+// errAnswer is the scripted answer "the handler returns a non-nil error" (script token 10).
+type errAnswer struct{}
+
+var errScripted = errors.New("scripted handler error")
+
+func answer(c vxfw.Command) (vxfw.Command, error) {
+	if _, is := c.(errAnswer); is {
+		return nil, errScripted
+	}
+	return c, nil
+}
+
 type plainW struct {
 	id int
 	c  *rcase
@@ -58,7 +71,7 @@ func (w *plainW) HandleEvent(ev vaxis.Event, ph vxfw.EventPhase) (vxfw.Command, 
 	case vxfw.BubblePhase:
 		p = "b"
 	}
-	return w.c.call(w.id, ev, p, ph == vxfw.TargetPhase), nil
+	return answer(w.c.call(w.id, ev, p, ph == vxfw.TargetPhase))
 }
 
 func (w *plainW) Draw(vxfw.DrawContext) (vxfw.Surface, error) { return w.c.draw(), nil }
@@ -66,7 +79,7 @@ func (w *plainW) Draw(vxfw.DrawContext) (vxfw.Surface, error) { return w.c.draw(
 type capW struct{ plainW }
 
 func (w *capW) CaptureEvent(ev vaxis.Event) (vxfw.Command, error) {
-	return w.c.call(w.id, ev, "c", false), nil
+	return answer(w.c.call(w.id, ev, "c", false))
 }
 
 func evCode(ev vaxis.Event) string {
@@ -111,6 +124,7 @@ type rcase struct {
 	finishing bool
 	started   bool
 	over      bool // Run has returned (or the case was abandoned)
+	runErr    bool // Run returned an error (written before `done` is sent)
 
 	initTree func() vxfw.Surface
 	armed    bool // the next Draw is the first Draw of a frame
@@ -227,7 +241,11 @@ func (c *rcase) snapshot(returned bool) string {
 	if returned {
 		qq = "1"
 	}
-	return fmt.Sprintf("%s;f=%s;p=%s;x=%s;q=%s", lg, c.wid(vxfw.VerifAppFocused(c.app)), p, x, qq)
+	e := ""
+	if returned && c.runErr {
+		e = ";e=1"
+	}
+	return fmt.Sprintf("%s;f=%s;p=%s;x=%s;q=%s%s", lg, c.wid(vxfw.VerifAppFocused(c.app)), p, x, qq, e)
 }
 
 // result turns the outcome of wait into the impl result of the op just executed. If Run is
@@ -408,6 +426,11 @@ func (rc *rcase) parseCmd(c *cur, depth int) vxfw.Command {
 			out = append(out, rc.parseCmd(c, depth+1))
 		}
 		return out
+	case 10:
+		// only as a whole script answer: the handler returns (nil, error)
+		if depth == 0 {
+			return errAnswer{}
+		}
 	}
 	panic(badOp{})
 }
@@ -522,7 +545,7 @@ func startCase(op []string) *rcase {
 				rc.done <- "panic"
 			}
 		}()
-		_ = app.Run(rc.ws[rc.root])
+		rc.runErr = app.Run(rc.ws[rc.root]) != nil
 		rc.done <- "done"
 	}()
 	return rc
@@ -835,6 +858,8 @@ type caseGen struct {
 	trees    []*node
 	hasFocus bool
 	hasCons  bool
+	errs     bool // scripts of this case may contain error answers (token 10)
+	hasErr   bool
 }
 
 func (g *caseGen) genTree() *node {
@@ -975,6 +1000,12 @@ func (g *caseGen) genScript() string {
 	m := g.rng.Range(0, 6)
 	parts := []string{"S", strconv.Itoa(m)}
 	for i := 0; i < m; i++ {
+		if g.errs && g.rng.Chance(1, 10) {
+			// this handler call returns an error
+			parts = append(parts, "10")
+			g.hasErr = true
+			continue
+		}
 		parts = append(parts, g.genCmd(0, g.clean))
 	}
 	return strings.Join(parts, " ")
@@ -1000,13 +1031,20 @@ func newGenSource(rng *gen.Rng, out *caseOut) *genSource {
 	g.clean = g.rng.Chance(1, 4)
 	s.g = g
 	s.nev = g.rng.Range(5, 25)
+	g.errs = g.rng.Chance(1, 5)
+	if g.errs {
+		out.count("case-with-error-answers")
+	}
 	return s
 }
 
 func (s *genSource) script() string {
 	g := s.g
-	g.hasFocus, g.hasCons = false, false
+	g.hasFocus, g.hasCons, g.hasErr = false, false, false
 	sc := g.genScript()
+	if g.hasErr {
+		s.out.count("script-has-error")
+	}
 	if g.hasFocus {
 		s.out.count("script-has-focus")
 	}
